@@ -13,6 +13,24 @@ def _self_test(rep, rule, src, pred, what):
     rep.check(bool(hits), rule, "built-in example: %s" % what, "recognised", "the rule does not recognise its own example (%s)" % what, "rules_lints.py")
 
 
+def literal_bound(f, e):
+    """the string constant an expression stands for: a literal, or a name bound exactly once - in the function or at module level - to one"""
+    if isinstance(e, ast.Constant) and isinstance(e.value, str):
+        return e.value
+    if isinstance(e, ast.Name):
+        local = [st for st in ast.walk(f.node) if isinstance(st, ast.Assign) and any(isinstance(t, ast.Name) and t.id == e.id for t in st.targets)]
+        other = [y for y in ast.walk(f.node) if isinstance(y, ast.Name) and y.id == e.id and isinstance(y.ctx, (ast.Store, ast.Del))]
+        if e.id in f.params:
+            return None
+        if len(local) == 1 and len(other) == 1 and isinstance(local[0].value, ast.Constant) and isinstance(local[0].value.value, str):
+            return local[0].value.value
+        if not local and not other:
+            vals = f.module.assigns.get(e.id, [])
+            if len(vals) == 1 and isinstance(vals[0], ast.Constant) and isinstance(vals[0].value, str):
+                return vals[0].value
+    return None
+
+
 def _in_modules(prog, modules):
     for f in prog.all_functions():
         if f.module.name in modules:
@@ -29,11 +47,23 @@ def _is_memo(d):
 
 
 def no_memo_decorators(prog, rep, rule, modules, why):
-    rep.rule(rule, "no function of %s is decorated with functools.lru_cache / cache / cached_property: %s" % (", ".join(m[5:] for m in modules), why))
+    rep.rule(rule, "no function of %s that looks at the file system, the clock, the network or at attributes of an object is decorated with "
+                   "functools.lru_cache / cache / cached_property: %s" % (", ".join(m[5:] for m in modules), why))
     n = 0
     for f in _in_modules(prog, modules):
         n += 1
         bad = [d for d in f.node.decorator_list if _is_memo(d)]
+        if bad:
+            # a memoised function of its arguments alone (md5 of a url, a joined name) stays the same function; one that looks at the file
+            # system, the clock, the network or at an object's attributes does not
+            me = f.params[0] if f.params and f.cls is not None else None
+            stateful = any(call_name(c).split(".")[0] in ("os", "tempfile", "time", "datetime", "dt", "urllib", "urllib2", "shutil", "glob", "pathlib", "open")
+                           or call_name(c) in ("open", "urlopen") for c in calls_in(f.node)) or \
+                any(isinstance(y, ast.Attribute) and isinstance(y.value, ast.Name) and y.value.id == me for y in ast.walk(f.node)) or \
+                any(isinstance(y, ast.Global) for y in ast.walk(f.node))
+            if not stateful:
+                rep.ok(rule, "%s is memoised but reads only its arguments" % f.short, unparse(bad[0]), f.where)
+                continue
         rep.check(not bad, rule, "%s is not memoised" % f.short, "ok",
                   "%s is memoised with %s: %s" % (f.short, unparse(bad[0]) if bad else "", why), f.where,
                   witness="the remembered answer outlives the state it was computed from")
@@ -182,7 +212,7 @@ def strip_with_variable(prog, rep, rule, modules):
             if isinstance(c.func, ast.Attribute) and c.func.attr in ("lstrip", "rstrip", "strip") and len(c.args) == 1 \
                     and not (isinstance(c.func.value, ast.Name) and c.func.value.id in ("str", "bytes")):      # str.strip(word): the argument is the text
                 n += 1
-                lit = isinstance(c.args[0], ast.Constant)
+                lit = isinstance(c.args[0], ast.Constant) or literal_bound(f, c.args[0]) is not None
                 rep.check(lit, rule, "%s: %s" % (f.short, unparse(c)[:50]), "literal character set",
                           "%s strips with the computed text `%s`: every leading character that occurs anywhere in it is removed, not the prefix"
                           % (f.short, unparse(c.args[0])[:40]), where(f, c),
@@ -219,7 +249,13 @@ def set_display_iteration(prog, rep, rule, modules):
                     src = local.get(it.id) if isinstance(it, ast.Name) else it
                     if isinstance(src, ast.Call) and unparse(src.func) in ("set", "frozenset") and src.args:
                         src = ast.Set(elts=[src.args[0]])
-                    if isinstance(src, ast.Set) and _has_str(src):
+                    def order_free(b, var=unparse(st.target)):
+                        # filling a table / a set under the loop variable does not depend on the order
+                        if isinstance(b, ast.Assign) and len(b.targets) == 1 and isinstance(b.targets[0], ast.Subscript) and unparse(b.targets[0].slice) == var:
+                            return True
+                        return isinstance(b, ast.Expr) and isinstance(b.value, ast.Call) and isinstance(b.value.func, ast.Attribute) \
+                            and b.value.func.attr in ("add", "discard")
+                    if isinstance(src, ast.Set) and _has_str(src) and not all(order_free(b) for b in st.body):
                         n += 1
                         rep.fail(rule, "%s|for %s" % (f.short, unparse(st.target)),
                                  "%s iterates the set %s: its order depends on the hash seed of the process" % (f.short, unparse(it)[:40]), where(f, st),
